@@ -382,6 +382,10 @@ def gen_c13(rng, n):
                 lp[i + 1][1] = lp[i][1] + rng.choice([0, 2, -2, 3])
             elif kind == 4:
                 lp[-1][0] = rng.choice([I64MAX, I64MAX - 1])
+                if rng.random() < 0.5 and len(lp) >= 2:
+                    # a later record far in the past: the difference of the two times does not fit 64 bits
+                    lp[-1][0] = rng.choice([I64MIN, I64MIN + 1, I64MIN + lp[-2][0], -(2**62) * 2 + 5])
+                    lp[-1][1] = lp[-2][1] + rng.choice([1, -1])
             else:
                 pass
         elif k < 0.85 and z["tr"]:
@@ -830,7 +834,28 @@ def new_year_probes(rng, r):
     return sorted(pts)
 
 
+def gen_all_notations(rng, frac):
+    """every day notation (365 Jn + 366 n + 420 Mm.w.d) as the start day of a rule-only zone, probed at its start instant
+    in a leap and in a common year: one wrong table entry or month/week/day case shows up here"""
+    nds = [["J", n] for n in range(1, 366)] + [["Z", n] for n in range(0, 366)] + [["M", m, w, d] for m in range(1, 13) for w in range(1, 6) for d in range(0, 7)]
+    if frac < 1.0:
+        nds = rng.sample(nds, int(len(nds) * frac))
+    for nd in nds:
+        # the end day is placed about half a year away so that the rule is accepted
+        approx = nd[1] if nd[0] != "M" else (nd[1] - 1) * 30 + 15
+        ed = ["J", (approx + 180) % 365 + 1]
+        r = {"k": "alt", "std": {"off": 0, "dst": 0, "des": B("STD")}, "dst": {"off": 3600, "dst": 1, "des": B("DST")}, "sd": nd, "st": 7200, "ed": ed, "et": 7200}
+        if rng.random() < 0.5:
+            r["sd"], r["ed"] = r["ed"], r["sd"]
+        yield zone_event({"tr": [], "ty": [dict(r["std"]), dict(r["dst"])], "lp": [], "rule": r})
+        for y in (rng.choice([2000, 2004, 2024, 1972, 2400]), rng.choice([2001, 2023, 2100, 1900, 2019])):
+            for t in (rule_S(r, y), rule_E(r, y)):
+                yield {"op": "lookup", "a": {"u": W(t - 1), "via": "ref"}}
+                yield {"op": "lookup", "a": {"u": W(t), "via": "ref"}}
+
+
 def gen_c04(rng, nrules, do_find=False):
+    yield from gen_all_notations(rng, 0.5 if nrules < 1000 else 1.0)
     for i in range(max(10, nrules // 8)):
         r = year_crossing_rule(rng)
         z = {"tr": [], "ty": [dict(r["std"]), dict(r["dst"])], "lp": [], "rule": r}
